@@ -251,6 +251,13 @@ func propC11(w *World, r *Report) {
 			r.Floor("H4", 5)
 		}
 	}
+	// the throttler sits between the processor and the file recorder when activated: it must pass the trigger's
+	// background and threshold through, also for files it re-opens mid-trigger
+	if tr, err := getThrottleRuns(w); err == nil {
+		checkThrottlePassThrough(w, r, tr, "H1")
+	} else {
+		r.Unknown("H1", "throttle pass-through", "-", err.Error())
+	}
 	checkHeaderInfoGetters(w, r)
 	checkConfigMapping(w, r)
 	checkParserSelection(w, r, ci2)
